@@ -35,7 +35,7 @@ def decode(v):
         if '__obj__' in v:
             return {'__cls__': v['__obj__'], **{k: decode(x) for k, x in v['attrs'].items()}}
         if '__dict__' in v:
-            return {k: decode(x) for k, x in v['__dict__']}
+            return {(tuple(k) if isinstance(k, list) else k): decode(x) for k, x in v['__dict__']}
         if '__seq__' in v:
             s = [decode(x) for x in v['__seq__']]
             return tuple(s) if v.get('tuple') else s
@@ -154,7 +154,7 @@ def helpers(np):
 
     def is_vector(x):
         return hasattr(x, '_data') and hasattr(x, 'asarray')
-    return dict(same_fp=same_fp, same_fp_bool=same_fp_bool, approx=approx, is_scalar=is_scalar, is_vector=is_vector, is_view=is_view, iff=iff, is_none=is_none, same_object=same_object, is_nan=is_nan, is_inf=is_inf,
+    return dict(INF_BOUND=1.0e30, same_fp=same_fp, same_fp_bool=same_fp_bool, approx=approx, is_scalar=is_scalar, is_vector=is_vector, is_view=is_view, iff=iff, is_none=is_none, same_object=same_object, is_nan=is_nan, is_inf=is_inf,
                 fp_finite=fp_finite, Sum=Sum, arr_eq=arr_eq, np=np)
 
 
